@@ -93,6 +93,20 @@ theorem runs_are_reachable (o : Ords) (a0 b0 : Nat) (ls : List Label) (s0 s : St
       rw [hs] at h
       exact ih s1 (Reach.step l h0 hs) h
 
+/-- **sequence_counter_does_not_come_back** — the model's sequence numbers are unbounded; in the code the counter is an
+`AtomicUsize` (read from the source: 64 bits), and the two tests of `try_read` are the ones of the model's reader (early
+return on an odd value, final equality): a read can be overlapped by `K` complete writes and still be accepted only if
+`2 K ≡ 0 (mod 2^64)` — no `K` below `2^63` does it. -/
+theorem sequence_counter_does_not_come_back :
+    Extracted.syncCellSeqBits = 64 ∧ Extracted.tryReadTestsTranslated = true ∧
+    (∀ seq newSeq, Extracted.tryReadAccept seq newSeq = (newSeq == seq)) ∧
+    (∀ k, 0 < k → k < 2 ^ 63 → (2 * k) % 2 ^ Extracted.syncCellSeqBits ≠ 0) := by
+  refine ⟨by decide, by decide, fun _ _ => rfl, ?_⟩
+  intro k h0 hk
+  have : Extracted.syncCellSeqBits = 64 := by decide
+  rw [this]
+  omega
+
 /-- **sequential_read_returns_last_write** (non-vacuity and tie to the sequential behaviour the harness compares):
 a write followed by a sequentially consistent read returns what was written. -/
 example : ((doWrite extractedOrds 7 9 (init 0 0)).bind (doReadSC extractedOrds)).map (·.result) =
